@@ -19,7 +19,7 @@ BOUNDS = ('n<=2 (thorough 3) children ending at symbolic dates in [0,30] by fini
           'child 0 by the body at x; all date coincidences and orders')
 ASSUMPTIONS = []
 
-FINISH, ERR_A, ERR_B, SYS_EXIT, NESTED, KBD, ASSERTION = range(7)
+FINISH, ERR_A, ERR_B, SYS_EXIT, NESTED, KBD, ASSERTION, CLEANUP = range(8)
 PRIVILEGED = (SystemExit, KeyboardInterrupt, AssertionError)
 
 
@@ -37,13 +37,14 @@ def make_exc(kind, i):
     raise AssertionError(kind)
 
 
-def fam_fail(E, n, kinds, body_kinds, cancel_one=False, real=False):
+def fam_fail(E, n, kinds, body_kinds, cancel_one=False, real=False, inner=False):
     ck = [kinds[E.pick('kind%d' % i, len(kinds))] for i in range(n)]
     f = [E.num('f%d' % i, 0, 30, real=real) for i in range(n)]
     bk = body_kinds[E.pick('body', len(body_kinds))]
     b = E.num('b', 0, 30, real=real)
     pb = E.pick('pb', 2)       # the body ends pb turns into time step b
     x = E.num('x', 0, 30, real=real) if cancel_one else None
+    di = E.num('di', 0, 30, real=real) if inner else None     # child of an inner scope
     log = Log()
     S = {}
 
@@ -56,6 +57,14 @@ def fam_fail(E, n, kinds, body_kinds, cancel_one=False, real=False):
     async def child(i):
         log(i, 'start')
         kind = ck[i]
+        if kind == CLEANUP:
+            # lives until it is closed with its scope; its clean-up then fails
+            try:
+                await eternity
+            finally:
+                exc = UserErrB('cleanup of %d' % i)
+                log(i, 'raise', exc)
+                raise exc
         if kind == NESTED:
             try:
                 async with Scope() as inner:
@@ -73,16 +82,25 @@ def fam_fail(E, n, kinds, body_kinds, cancel_one=False, real=False):
         log(i, 'raise', exc)
         raise exc
 
+    async def inner_child():
+        await (time + di)
+        log('in', 'end')
+
     async def owner():
         outcome = None
         try:
             async with Scope() as scope:
-                tasks = [scope.do(child(i)) for i in range(n)]
+                tasks = [scope.do(child(i), volatile=(ck[i] == CLEANUP)) for i in range(n)]
                 S['tasks'] = tasks
                 if cancel_one:
                     await at_cp(x, 0)
                     log('own', 'cancel-0')
                     tasks[0].cancel('token')
+                if inner:
+                    # a scope nested in the same activity, left gracefully (waits for di)
+                    async with Scope() as inner_scope:
+                        inner_scope.do(inner_child())
+                    log('own', 'inner-left')
                 await at_cp(b, pb)
                 if bk == FINISH:
                     log('own', 'body-end')
@@ -119,6 +137,8 @@ def fam_fail(E, n, kinds, body_kinds, cancel_one=False, real=False):
     # nothing of the children runs after the block
     for ev in log.events[pos_left + 1:]:
         E.prove(ev[0] in ('by',), 'no-child-code-after-exit', ('%r', ev[:2]))
+    if inner and log.has('own', 'inner-left') and not log.has('in', 'end'):
+        E.fail('inner-scope-left-before-its-child-ended')
     # exactly one way of ending, with exactly the right content
     if body_raise:
         eb = body_raise[0][3]
@@ -165,8 +185,9 @@ def fam_fail(E, n, kinds, body_kinds, cancel_one=False, real=False):
         first = min(failures, key=log.pos)
         E.prove(EQ(t_left, first[2]), 'abort-in-time-step-of-first-failure',
                 ('first failure at %r, block left at %r', first[2], t_left))
-        if body_raise and child_raises and log.pos(child_raises[0]) > log.pos(body_raise[0]):
-            E.fail('child-ran-after-body-raised')
+        for cr in child_raises:
+            if body_raise and log.pos(cr) > log.pos(body_raise[0]) and ck[cr[0]] != CLEANUP:
+                E.fail('child-ran-after-body-raised')
         body_end = log.first('own', 'body-end')
         if body_end is not None and log.pos(body_end) < log.pos(first):
             E.reach('failure-during-graceful-shutdown')
@@ -174,7 +195,7 @@ def fam_fail(E, n, kinds, body_kinds, cancel_one=False, real=False):
         last = b
         for i in range(n):
             last = MAX(last, f[i]) if not (cancel_one and i == 0) else last
-        if not cancel_one:
+        if not cancel_one and not inner:
             E.prove(EQ(t_left, last), 'normal-exit-when-all-done')
     by = log.first('by', 'end')
     E.prove(by is not None and EQ(by[2], 100), 'bystander-undisturbed')
@@ -196,6 +217,17 @@ FAMILIES = [
                       cancel_one=True),
            thorough=dict(n=2, kinds=K5, body_kinds=[FINISH, ERR_A, ASSERTION], cancel_one=True),
            reach=['concurrent', 'no-failure'], bounds='2 children, child 0 cancelled by the body at x'),
+    Family('two_inner', fam_fail,
+           quick=dict(n=2, kinds=[FINISH, ERR_A, SYS_EXIT], body_kinds=[FINISH, ERR_A], inner=True),
+           thorough=dict(n=2, kinds=K5, body_kinds=[FINISH, ERR_A, ASSERTION], inner=True),
+           reach=['concurrent', 'no-failure', 'privileged'],
+           bounds='2 children; the body contains a nested scope of the same activity that is '
+                  'left gracefully (its child ends at di)'),
+    Family('cleanup', fam_fail,
+           quick=dict(n=2, kinds=[FINISH, ERR_A, CLEANUP], body_kinds=[FINISH, ERR_A]),
+           thorough=dict(n=3, kinds=[FINISH, ERR_A, SYS_EXIT, CLEANUP], body_kinds=[FINISH, ERR_A]),
+           reach=['concurrent', 'no-failure'],
+           bounds='children may be volatile tasks whose clean-up raises when the scope closes them'),
     Family('three', fam_fail,
            thorough=dict(n=3, kinds=[FINISH, ERR_A, SYS_EXIT, NESTED], body_kinds=[FINISH, ERR_A]),
            reach=REACH, bounds='3 children'),
